@@ -447,7 +447,29 @@ def _pick_ms(self):
 Driver.pick_ms = _pick_ms
 
 
-def _mk_wallet(kind, name, db_uri, net, wt, acct, material):
+def obj_snapshot(k):
+    """What a key object says about itself: (field, value) pairs as texts (transport only)."""
+    out = []
+    for f in ('witness_type', 'is_private', 'depth', 'key_type', 'multisig', 'compressed', 'encoding', 'script_type',
+              'child_index', 'public_hex', 'private_hex'):
+        out.append([f, str(getattr(k, f, None))])
+    out.append(['network', k.network.name])
+    out.append(['chain', bytes(k.chain or b'').hex()])
+    out.append(['parent_fingerprint', bytes(k.parent_fingerprint or b'').hex()])
+    for f, call in (('wif()', lambda: k.wif()), ('wif_public()', lambda: k.wif_public()),
+                    ('wif_private()', lambda: k.wif_private() if k.is_private else ''), ('address()', lambda: k.address())):
+        try:
+            out.append([f, str(call())])
+        except Exception as e:
+            out.append([f, 'raised ' + type(e).__name__])
+    return out
+
+
+def object_record(what, before, k, reuse=None):
+    return {'k': 'object', 'what': what, 'before': before, 'after': obj_snapshot(k), 'reuse': reuse or {'net': '', 'wt': ''}}
+
+
+def _mk_wallet(kind, name, db_uri, net, wt, acct, material, kobj=None):
     from bitcoinlib.wallets import Wallet
     from bitcoinlib.keys import HDKey
     kw = {'network': net, 'witness_type': wt, 'db_uri': db_uri}
@@ -456,7 +478,7 @@ def _mk_wallet(kind, name, db_uri, net, wt, acct, material):
     if kind == 'mnemonic':
         return Wallet.create(name, keys=material['words'], password=material['pass'], **kw)
     seed = bytes.fromhex(material['seed'])
-    hk = HDKey.from_seed(seed, network=net, witness_type=wt)
+    hk = kobj if kobj is not None else HDKey.from_seed(seed, network=net, witness_type=wt)
     if kind == 'seed':
         return Wallet.create(name, keys=hk, **kw)
     if kind == 'xprv':
@@ -541,14 +563,24 @@ def _family(job, d):
     else:
         material['seed'] = bytes(rng.getrandbits(8) for _ in range(rng.choice([16, 32, 64]))).hex()
         root = {'root': 'seed', 'seed': list(bytes.fromhex(material['seed']))}
-    res = {'job': job, 'kind': kind, 'traces': [], 'keys': [], 'desc': {}, 'setup_error': None}
+    res = {'job': job, 'kind': kind, 'traces': [], 'keys': [], 'desc': {}, 'setup_error': None, 'objects': []}
     name = 'w%d' % seedn
+    # the caller's key object: an HDKey with a witness type of its own (equal to the wallet's or not), handed to Wallet.create
+    # together with explicit settings, and used again later
+    kobj, kwt, snap0 = None, wt, None
+    if kind == 'seed':
+        from bitcoinlib.keys import HDKey
+        kwt = rng.choice(dict(NETS)[net])
+        kobj = HDKey.from_seed(bytes.fromhex(material['seed']), network=net, witness_type=kwt)
+        snap0 = obj_snapshot(kobj)
     try:
-        w = _mk_wallet(kind, name, uri(name), net, wt, acct, material)
+        w = _mk_wallet(kind, name, uri(name), net, wt, acct, material, kobj)
     except Exception as e:
         res['setup_error'] = 'Wallet.create(%s, %s, %s, account %d): %r' % (kind, net, wt, acct, e)
         return res
-    cfg = {'net': net, 'wt': wt, 'acct': acct, 'ms': False, 'cos': 0, 'watch': False}
+    cfg = {'net': net, 'wt': wt, 'acct': acct, 'ms': False, 'cos': 0, 'watch': False, 'kwt': kwt}
+    if kobj is not None:
+        res['objects'].append(object_record('Wallet.create(keys=<HDKey %s>, network=%s, witness_type=%s, account_id=%d)' % (kwt, net, wt, acct), snap0, kobj))
     drv = Driver(w, name, uri(name), cfg, rng)
     drv.gentle = bool(job.get('gentle'))
     drv.ooo = bool(job.get('ooo'))
@@ -575,9 +607,18 @@ def _family(job, d):
         if not drv.last_export:
             raise RuntimeError('public_master(account_id=%d, witness_type=%s, network=%s) gave no key' % (aacct, awt, an))
         pmid, pmwif = drv.last_export
-        w3 = Wallet.create(name + 'p', keys=pmwif, network=an, witness_type=awt, db_uri=uri(name + 'p'))
+        pmobj, pmsnap = None, None
+        if seedn % 3 == 2:
+            # the key OBJECT an export returns, used as the account wallet's key (and described before / after)
+            pmobj = Wallet(name, db_uri=uri(name)).key(pmid).key()
+            if not apriv:
+                pmobj = pmobj.public()
+            pmsnap = obj_snapshot(pmobj)
+        w3 = Wallet.create(name + 'p', keys=pmobj if pmobj is not None else pmwif, network=an, witness_type=awt, db_uri=uri(name + 'p'))
+        if pmobj is not None:
+            res['objects'].append(object_record('Wallet.create(keys=<account key object>, network=%s, witness_type=%s)' % (an, awt), pmsnap, pmobj))
         w3name = name + 'p'
-        cfg3 = {'net': an, 'wt': awt, 'acct': _int(w3.main_key.account_id), 'ms': False, 'cos': 0, 'watch': True, 'priv': apriv}
+        cfg3 = {'net': an, 'wt': awt, 'acct': _int(w3.main_key.account_id), 'ms': False, 'cos': 0, 'watch': True, 'priv': apriv, 'kwt': awt}
         drv3 = Driver(w3, name + 'p', uri(name + 'p'), cfg3, rng)
         drv3.gentle = bool(job.get('gentle'))
         drv3.ooo = bool(job.get('ooo'))
@@ -617,6 +658,27 @@ def _family(job, d):
     except Exception as e:
         problems.append('restoring from %s raised %r' % (k2, e))
     res['traces'].append({'k': 'trace', 'cfg': cfg, 'events': drv.events, 'keys': rows, 'restored': restored, 'cotrees': []})
+    if kobj is not None:
+        # the same object again: after the history, after an export from the object itself, and as key of another wallet
+        # created with default settings - which has to be the wallet of the object's ORIGINAL witness type and network
+        res['objects'].append(object_record('the history of the wallet made from it', snap0, kobj))
+        try:
+            kobj.public_master()
+            res['objects'].append(object_record('HDKey.public_master()', snap0, kobj))
+            ucfg = {'net': net, 'wt': kwt, 'acct': 0, 'ms': False, 'cos': 0, 'watch': False, 'kwt': kwt}
+            wu = Wallet.create(name + 'u', keys=kobj, db_uri=uri(name + 'u'))
+            res['objects'].append(object_record('Wallet.create(keys=<the same HDKey>) with default settings', snap0, kobj,
+                                                {'net': ucfg['net'], 'wt': ucfg['wt']}))
+            drvu = Driver(wu, name + 'u', uri(name + 'u'), ucfg, rng)
+            drvu.gentle = True
+            for i in range(3):
+                drvu.step(drvu.pick(False), rng.randrange(0, 420))
+            rowsu, obsu = table_of(name + 'u', uri(name + 'u'))
+            res['traces'].append({'k': 'trace', 'cfg': ucfg, 'events': drvu.events, 'keys': rowsu, 'restored': [], 'cotrees': [], 'which': 'reuse'})
+            res['keys'] += [dict(x, wallet='reused-object', exported=drvu.ever_exported) for x in key_records(rowsu, obsu, root, rng, 4)]
+            res['desc']['reuse'] = drvu.desc
+        except Exception as e:
+            problems.append('wallet from the reused key object raised %r' % e)
     if wtrace:
         res['traces'].append(wtrace)
     res['keys'] += [dict(x, wallet='full', exported=drv.ever_exported) for x in key_records(rows, obs, root, rng, job.get('nleaf'))]
@@ -732,6 +794,15 @@ def run(replay=None):
             ck.violation(None, 'clause %s; wallet %s/%s account %d (seed %d, from %s) restored from %s (account %s/%s/%d) | history: %s' % (
                 v['v'], r['cfg']['net'], r['cfg']['wt'], r['cfg']['acct'], fam['job']['seed'], fam['kind'], R['kind'], R['net'], R['wt'], R['acct'],
                 describe(fam, 'full')), {'job': fam['job']})
+    orecs = [(fam, o) for fam in fams for o in fam.get('objects', [])]
+    over = common.tlc_eval('WalletKeysEval', [o for _, o in orecs], procs=1, timeout=600)
+    for (fam, o), v in zip(orecs, over):
+        ck.case(('object', fam['kind'], fam['job']['net'], fam['job']['wt'], o['what'].split('(')[0]))
+        if v['v'] != 'ok':
+            ck.violation(None, 'clause %s; key object of wallet family %s/%s (seed %d, from %s) after %s: now says %s' % (
+                v['v'], fam['job']['net'], fam['job']['wt'], fam['job']['seed'], fam['kind'], o['what'],
+                [x for x in v['exp'] if x][:4]), {'job': fam['job']})
+    ck.notes['key_objects_described'] = len(orecs)
     lap('traces')
     orc = c09_oracle.Oracle9()
     kver = orc.judge(procs=12 if thorough else 5, recs=[{x: r[x] for x in ('k', 'root', 'seed', 'words', 'pass', 'parent', 'child', 'tok', 'net', 'wt', 'exported', 'noaddr')} for r in krecs])
@@ -744,7 +815,7 @@ def run(replay=None):
             own = (e['a']['net'], e['a']['wt'], e['a']['acct']) == (t['cfg']['net'], t['cfg']['wt'], t['cfg']['acct'])
             ck.case((kindw, t['cfg']['net'], t['cfg']['wt'], e['a']['op'], min(e['a']['n'], 2), own, e['ok']))
         if v['v'] != 'ok':
-            which = 'watch' if t['cfg']['watch'] and not t['cfg']['ms'] else 'full'
+            which = t.get('which') or ('watch' if t['cfg']['watch'] and not t['cfg']['ms'] else 'full')
             at = v['at']
             text = 'clause %s; %s wallet %s/%s account %d (seed %d, from %s), at %s: %s | expected %s | history: %s' % (
                 v['v'], kindw, t['cfg']['net'], t['cfg']['wt'], t['cfg']['acct'], fam['job']['seed'], fam['kind'], at,
